@@ -1088,4 +1088,234 @@ impl Family for Cw4Family {
     fn run(&self, prop: &str, case: &Case, ctx: &mut CaseCtx) -> Result<(), Violation> {
         run_case(prop, case, ctx)
     }
+    fn decode(&self, prop: &str, u: &mut arbitrary::Unstructured) -> Option<Case> {
+        Some(decode_case(prop, u))
+    }
+}
+
+// ---------------------------------------------------------------- byte decoder (fuzz front-end)
+// Mirrors `case_strategy` arm by arm (same arms, same weights, same value ranges); one byte per choice.
+
+use vcore::amounts::{arb_below, arb_bool, arb_u64};
+
+/// arm index drawn with the weights of the corresponding `prop_oneof!` (one byte while the weights sum
+/// to <= 256); an exhausted input selects the first arm
+fn d_arm(u: &mut arbitrary::Unstructured, w: &[u32]) -> usize {
+    let total: u32 = w.iter().sum();
+    let mut r = arb_below(u, total as usize) as u32;
+    for (i, x) in w.iter().enumerate() {
+        if r < *x {
+            return i;
+        }
+        r -= *x;
+    }
+    0
+}
+/// 16-bit state-relative selector from one byte (`pick` only looks at the top bits)
+fn d_sel(u: &mut arbitrary::Unstructured) -> u16 {
+    u.arbitrary::<u8>().unwrap_or(0) as u16 * 257
+}
+/// `any_addr`
+fn d_addr(u: &mut arbitrary::Unstructured) -> u8 {
+    match arb_below(u, 46) {
+        r @ 0..=43 => (r % N_ADDR as usize) as u8,
+        44 => N_ADDR,
+        _ => N_ADDR + 1,
+    }
+}
+/// `who(prop)`
+fn d_who(u: &mut arbitrary::Unstructured, prop: &str) -> Who {
+    let w: [u32; 3] = if prop == "C14" { [60, 12, 28] } else { [88, 2, 10] };
+    match d_arm(u, &w) {
+        0 => Who::Admin,
+        1 => Who::ExAdmin,
+        _ => Who::Actor(arb_below(u, N_ADDR as usize) as u8),
+    }
+}
+/// `wt`
+fn d_wt(u: &mut arbitrary::Unstructured) -> Wt {
+    match d_arm(u, &[3, 3, 20, 5, 2, 1]) {
+        0 => Wt::Abs(0),
+        1 => Wt::Abs(1),
+        2 => Wt::Abs(arb_below(u, 100) as u64),
+        3 => Wt::Same,
+        4 => Wt::Abs(arb_u64(u)),
+        _ => Wt::Abs(u64::MAX),
+    }
+}
+/// `hook_ix`
+fn d_hook(u: &mut arbitrary::Unstructured) -> u8 {
+    match arb_below(u, 31) {
+        30 => N_HOOK,
+        r => (r % N_HOOK as usize) as u8,
+    }
+}
+/// `hook_sel`
+fn d_hook_sel(u: &mut arbitrary::Unstructured) -> HookSel {
+    if d_arm(u, &[3, 1]) == 0 {
+        HookSel::Registered(d_sel(u))
+    } else {
+        HookSel::Ix(d_hook(u))
+    }
+}
+/// `admin_target` (none: 1, some: `some`) / `admin_init` (none: 1, some: 24)
+fn d_opt_addr(u: &mut arbitrary::Unstructured, some: u32) -> Option<u8> {
+    if d_arm(u, &[1, some]) == 0 {
+        None
+    } else {
+        Some(d_addr(u))
+    }
+}
+/// `group_op`
+fn d_group_op(u: &mut arbitrary::Unstructured, prop: &str) -> Op {
+    let w: [u32; 5] = if prop == "C14" { [12, 1, 3, 6, 4] } else { [30, 1, 1, 1, 1] };
+    match d_arm(u, &w) {
+        0 => {
+            let by = d_who(u, prop);
+            let add: Vec<(u8, Wt)> = if d_arm(u, &[14, 1]) == 0 {
+                // distinct addresses in ascending order (btree_map), at most 3
+                let n = arb_below(u, 4);
+                (0..n).map(|_| (d_addr(u), d_wt(u))).collect::<BTreeMap<u8, Wt>>().into_iter().collect()
+            } else {
+                let n = arb_below(u, 5);
+                (0..n).map(|_| (d_addr(u), d_wt(u))).collect()
+            };
+            let n = arb_below(u, 3);
+            Op::UpdateMembers { by, add, remove: (0..n).map(|_| d_addr(u)).collect() }
+        }
+        1 => {
+            // one call touching more than a page of addresses
+            let by = d_who(u, prop);
+            let n = 28 + arb_below(u, 18) as u8;
+            let w = d_wt(u);
+            let k = arb_below(u, 46) as u8;
+            let rm = arb_bool(u, 1, 2);
+            let add: Vec<(u8, Wt)> = (0..n).map(|i| (100 + i, w.clone())).collect();
+            let remove: Vec<u8> = if rm { (0..k.min(n)).map(|i| 100 + i).collect() } else { vec![] };
+            Op::UpdateMembers { by, add, remove }
+        }
+        2 => Op::UpdateAdmin { by: d_who(u, prop), to: d_opt_addr(u, 14) },
+        3 => Op::AddHook { by: d_who(u, prop), hook: d_hook(u) },
+        _ => Op::RemoveHook { by: d_who(u, prop), hook: d_hook_sel(u) },
+    }
+}
+/// `bond_amt`
+fn d_bond_amt(u: &mut arbitrary::Unstructured) -> BondAmt {
+    match d_arm(u, &[2, 2, 10, 2, 1, 6, 6]) {
+        0 => BondAmt::Abs(0),
+        1 => BondAmt::Abs(1),
+        2 => BondAmt::Abs(u.arbitrary::<u16>().unwrap_or(0) as u64 % 1000),
+        3 => BondAmt::Abs(u.arbitrary::<u64>().unwrap_or(0) % ((1u64 << 40) + 1)),
+        4 => BondAmt::Abs([1u64 << 62, 1u64 << 63, u64::MAX / 3, u64::MAX - 5, u64::MAX][arb_below(u, 5)]),
+        5 => BondAmt::Tpw(arb_below(u, 6) as u8),
+        _ => BondAmt::ToMinBond(arb_below(u, 4) as i8 - 1),
+    }
+}
+/// `stake_op`
+fn d_stake_op(u: &mut arbitrary::Unstructured, prop: &str) -> Op {
+    let users = 4usize;
+    let w: [u32; 6] = if prop == "C14" { [9, 7, 1, 3, 6, 4] } else { [16, 14, 1, 1, 1, 1] };
+    match d_arm(u, &w) {
+        0 => {
+            let by = arb_below(u, users) as u8;
+            let funds = match d_arm(u, &[40, 1, 1, 1]) {
+                0 => Funds::Stake(d_bond_amt(u)),
+                1 => Funds::WrongDenom(1 + u.arbitrary::<u16>().unwrap_or(0) as u64 % 999),
+                2 => Funds::Nothing,
+                _ => Funds::TwoCoins(1 + u.arbitrary::<u16>().unwrap_or(0) as u64 % 999),
+            };
+            Op::Bond { by, funds }
+        }
+        1 => {
+            let by = arb_below(u, users) as u8;
+            let amt = match d_arm(u, &[4, 6, 4, 5, 4]) {
+                0 => UnbondAmt::Abs(u.arbitrary::<u16>().unwrap_or(0) as u64 % 1000),
+                1 => UnbondAmt::All(arb_below(u, 3) as i8 - 1),
+                2 => UnbondAmt::Frac(u.arbitrary().unwrap_or(0)),
+                3 => UnbondAmt::BelowMin,
+                _ => UnbondAmt::Tpw(arb_below(u, 4) as u8),
+            };
+            Op::Unbond { by, amt }
+        }
+        2 => Op::Claim { by: arb_below(u, users) as u8 },
+        3 => Op::UpdateAdmin { by: d_who(u, prop), to: d_opt_addr(u, 14) },
+        4 => Op::AddHook { by: d_who(u, prop), hook: d_hook(u) },
+        _ => Op::RemoveHook { by: d_who(u, prop), hook: d_hook_sel(u) },
+    }
+}
+/// `blocks` with the quick-tier shape
+fn d_blocks(u: &mut arbitrary::Unstructured, prop: &str, group: bool) -> Vec<Block> {
+    let (max_blocks, max_ops) = shape(prop, Tier::Quick);
+    let n_blocks = arb_below(u, max_blocks + 1);
+    let mut blocks = vec![];
+    for _ in 0..n_blocks {
+        let gap = if d_arm(u, &[1, 12]) == 0 { 0 } else { 1 + arb_below(u, 5) as u8 };
+        let n = arb_below(u, max_ops + 1);
+        let ops = (0..n).map(|_| if group { d_group_op(u, prop) } else { d_stake_op(u, prop) }).collect();
+        blocks.push(Block { gap, ops });
+    }
+    blocks
+}
+
+/// Byte decoder for the cw4 family: same shape as `case_strategy(prop, Tier::Quick)`.
+pub fn decode_case(prop: &str, u: &mut arbitrary::Unstructured) -> Case {
+    if d_arm(u, &[3, 2]) == 0 {
+        // cw4-group
+        let admin = d_opt_addr(u, 24);
+        let members: Vec<(u8, u64)> = match d_arm(u, &[20, 2, 2]) {
+            0 => {
+                // distinct pool addresses in ascending order
+                let n = arb_below(u, N_ADDR as usize + 1);
+                (0..n)
+                    .map(|_| {
+                        let a = arb_below(u, N_ADDR as usize) as u8;
+                        let w = match d_arm(u, &[1, 10, 1]) {
+                            0 => 0,
+                            1 => arb_below(u, 100) as u64,
+                            _ => arb_u64(u),
+                        };
+                        (a, w)
+                    })
+                    .collect::<BTreeMap<u8, u64>>()
+                    .into_iter()
+                    .collect()
+            }
+            1 => {
+                let n = arb_below(u, 7);
+                (0..n).map(|_| (d_addr(u), if d_arm(u, &[4, 1]) == 0 { arb_below(u, 100) as u64 } else { arb_u64(u) })).collect()
+            }
+            _ => {
+                // an entry repeated exactly (same address, same weight)
+                let n = 1 + arb_below(u, 5);
+                let mut v: Vec<(u8, u64)> = (0..n).map(|_| (arb_below(u, N_ADDR as usize) as u8, 1 + arb_below(u, 99) as u64)).collect();
+                let e = v[pick(d_sel(u), v.len())];
+                let at = pick(d_sel(u), v.len() + 1);
+                v.insert(at, e);
+                v
+            }
+        };
+        let blocks = d_blocks(u, prop, true);
+        Case { stake: None, admin, members, blocks }
+    } else {
+        // cw4-stake
+        let tpw = match d_arm(u, &[10, 6, 3, 2, 1, 1]) {
+            0 => 1,
+            1 => 2 + arb_below(u, 9) as u64,
+            2 => 100,
+            3 => 1000,
+            4 => 1 + u.arbitrary::<u16>().unwrap_or(0) as u64 % 4999,
+            _ => 0,
+        };
+        let min_bond = match d_arm(u, &[3, 3, 8, 3]) {
+            0 => 0,
+            1 => 1,
+            2 => 2 + arb_below(u, 38) as u64,
+            _ => 40 + u.arbitrary::<u16>().unwrap_or(0) as u64 % 2960,
+        };
+        let unbond_blocks = 1 + arb_below(u, 3) as u8;
+        let cw20 = arb_bool(u, 2, 5);
+        let admin = d_opt_addr(u, 24);
+        let blocks = d_blocks(u, prop, false);
+        Case { stake: Some(StakeCfg { tpw, min_bond, unbond_blocks, cw20 }), admin, members: vec![], blocks }
+    }
 }
